@@ -13,12 +13,14 @@ def classify(d):
     return d.get("diag")
 
 
-def run_rend_traces(ctx, families, n, shards=None, prefix="rend"):
+def run_rend_traces(ctx, families, n, shards=None, prefix="rend", sub=None):
     shards = shards or (8 if ctx.tier == "quick" else 32)
-    p, _ = ctx.run_harness(["drive-rend", "-out", ctx.tmp, "-shards", str(shards), "-n", str(n),
+    outdir = os.path.join(ctx.tmp, sub) if sub else ctx.tmp     # sub: keep apart from another driver's files
+    os.makedirs(outdir, exist_ok=True)
+    p, _ = ctx.run_harness(["drive-rend", "-out", outdir, "-shards", str(shards), "-n", str(n),
                             "-families", ",".join(families)], timeout=3000)
     summ = deccheck.summary_of(p)
-    files = sorted(glob.glob(os.path.join(ctx.tmp, prefix + ".*.ndjson")))
+    files = sorted(glob.glob(os.path.join(outdir, prefix + ".*.ndjson")))
     events, diags, runs = vlib.tv_shards(ctx, "TV_Renderer", "TV_Renderer", files, expect_all=False)
     lines = sum(vlib.count_lines(f) for f in files)
     tot = dict(lines=0, njudged=0, nskipgeo=0, nbad=0)
